@@ -94,7 +94,7 @@ Definition zembed (z : zstate) (x : option nat) : kstate :=
 
 (* ---- pure helpers *)
 Definition p_normalizeargs (l : list node) : list node := l.
-Definition p_is_root (x : node) : bool := false.       (* ``x is Interface``: never a numbered interface *)
+Definition p_is_root (x : node) : bool := node_eqb x (NI 0).   (* ``x is Interface``: interface 0 *)
 Definition p_truth (l : list node) : bool := match l with [] => false | _ => true end.
 Definition p_in (x : node) (l : list node) : bool := existsb (node_eqb x) l.
 (* iface.extends(b) (strict) *)
@@ -149,7 +149,7 @@ Fixpoint kflat_f (g : igraph) (kcs : list kcls) (fuel : nat) (n : node) : list i
 Definition kfuel (n : node) : nat := match n with NC c => S c | _ => 0 end.
 Definition p_isOrExtends (g : igraph) (s : kstate) (spec x : node) : bool :=
   match x with
-  | NI i => mem_nat i (kflat_f g (kclasses s) (kfuel spec) spec)
+  | NI i => implied_by (kflat_f g (kclasses s) (kfuel spec) spec) i   (* every specification implies Interface *)
   | _ => false
   end.
 
@@ -279,6 +279,7 @@ Definition p_decl_sub (g : igraph) (d : list node) (x : node) : list node :=
 Definition p_providedBy (g : igraph) (s : kstate) (x : node) (ob : target) : bool :=
   match x with
   | NI i =>
+      Nat.eqb i 0 ||
       match ob with
       | TInst o => match nth_error (kinsts s) o with
                    | Some r => match ki_provides r with
